@@ -230,12 +230,13 @@ def impl(case):
 
     def call():
         cur = _depth() + 1                      # interpreter depth of the evaluate_bounded frame
-        limit = case['abs_limit'] if case.get('abs_limit') is not None else cur + case['delta']
+        default = case.get('abs_limit') == 'default'      # evaluate_bounded(query, projection) without a limit: documented default 200
+        limit = 200 if default else case['abs_limit'] if case.get('abs_limit') is not None else cur + case['delta']
         rl0 = cur + case['rl0_extra']
         info.update(cur=cur, limit=limit, rl0=rl0)
         sys.setrecursionlimit(rl0)
         try:
-            return ['return', yp.evaluate_bounded(q, proj, limit)]
+            return ['return', yp.evaluate_bounded(q, proj) if default else yp.evaluate_bounded(q, proj, limit)]
         except CyclicTerm:
             info['cyclic'] = True
             return ['raise', 'CyclicTerm', False]
@@ -630,6 +631,9 @@ def decorate(rng, c):
     c['abs_limit'] = None
     if rng.random() < 0.04:
         c['abs_limit'] = rng.choice([0, -1, -100])
+    elif rng.random() < 0.05 and c.get('maxdelta', 400) >= 200:
+        c['abs_limit'] = 'default'
+        c['delta'] = 180
     c['rl0_extra'] = rng.choice([700, 1000, 1234, 2500, 6000])
     c['extra_depth'] = rng.choice([0, 0, 0, 3, 17, 60])
     r = rng.random()
@@ -673,6 +677,9 @@ def builtin_corpus():
             add(nat, delta=40, **{'raise': [k, e]})
             add(cats, delta=40, **{'raise': [k + 1, e]})
         add(nat, delta=9, **{'raise': [2, e]})
+    add(cats, abs_limit='default', delta=180)
+    add(dict(nat, tdepth=110), abs_limit='default', delta=180)
+    add(dict(nat, tdepth=110), abs_limit='default', delta=180, **{'raise': [3, 'KeyError']})
     for lim in (0, -1):
         add(cats, abs_limit=lim)
         add(nat, abs_limit=lim, **{'raise': [0, 'KeyError']})
@@ -711,13 +718,13 @@ def nontrivial(case, io):
 
 def distribution(cases, obs):
     d = {'family': {}, 'outcome': {}, 'result_vs_unbounded': {'complete': 0, 'proper prefix': 0, 'empty although answers exist': 0},
-         'delta': {'<=0': 0, '1-12': 0, '13-40': 0, '41-120': 0, '>120': 0}, 'projection': {'returns': 0, 'nested': 0}, 'abs_limit<1': 0}
+         'delta': {'<=0': 0, '1-12': 0, '13-40': 0, '41-120': 0, '>120': 0}, 'projection': {'returns': 0, 'nested': 0}, 'absolute limit (0, negative, default 200)': 0}
     for c, o in zip(cases, obs):
         fam = c.get('family', '?')
         fam = 'leftrec' if fam.startswith('leftrec') else fam
         d['family'][fam] = d['family'].get(fam, 0) + 1
         if c.get('abs_limit') is not None:
-            d['abs_limit<1'] += 1
+            d['absolute limit (0, negative, default 200)'] += 1
         else:
             x = c['delta']
             d['delta']['<=0' if x <= 0 else '1-12' if x <= 12 else '13-40' if x <= 40 else '41-120' if x <= 120 else '>120'] += 1
@@ -746,7 +753,7 @@ def distribution(cases, obs):
 def describe(case):
     q = case['query']
     return {'program': semcheck.source_of(case), 'python_predicates': case.get('native') or [], 'dynamic_facts': [[n, [terms.show_term(t) for t in ts]] for n, ts in (case.get('dyn') or [])], 'query': ast_io.term_text(['fun', q[0], q[1]]) if q[1] else q[0],
-            'limit': case['abs_limit'] if case.get('abs_limit') is not None else 'depth of the evaluate_bounded frame + %d' % case['delta'],
+            'limit': 'the default (200)' if case.get('abs_limit') == 'default' else case['abs_limit'] if case.get('abs_limit') is not None else 'depth of the evaluate_bounded frame + %d' % case['delta'],
             'projection': ('raises %s at answer %d' % (case['raise'][1], case['raise'][0])) if case.get('raise') else
                           ('nested evaluate_bounded at answer %d (%s)' % (case['nest'][0], case['nest'][2])) if case.get('nest') else 'returns the answer'}
 
